@@ -42,6 +42,12 @@ class LatencyPeer(P.ScriptedPeer):
             self.i += 1
             self.events.append((self.i - 1, 'none', f.key(), b''))
             return                                   # nobody answers a broadcast
+        if getattr(self, 'bogus_address', None) is not None and f.msg.get('address') == self.bogus_address:
+            # a complete, well-framed reply the client cannot decode (a function code it does not know)
+            self.i += 1
+            self.events.append((self.i - 1, 'bogus', f.key(), b''))
+            conn.deliver(ADU.build(self.framing, f.unit or 0, bytes([0x63, 0x01]), tid=f.tid or 0))
+            return
         own = self.own_reply(f)
         self.i += 1
         self.events.append((self.i - 1, 'own', f.key(), own))
@@ -67,7 +73,7 @@ def expected_registers(addr, count):
 
 
 def one_schedule(kind, nthreads, ntx, chooser, preconnect, wrap_lock=True, variant='plain', foreign=False):
-    """variant: plain | foreign (plain, the caller threads are not threading.Thread objects) | units (every thread talks to its own unit id) | retry (retry options on, some first replies come from a foreign unit)
+    """variant: plain | after-undecodable (plain, after a transaction of the same client that ended with an undecodable reply) | foreign (plain, the caller threads are not threading.Thread objects) | units (every thread talks to its own unit id) | retry (retry options on, some first replies come from a foreign unit)
     | broadcast (broadcast_enable on; every second thread sends unit-0 writes that nobody answers)"""
     framing = IO.framing_of(kind)
     foreign = foreign or variant == 'foreign'      # callers that the threading module does not know (started with _thread.start_new_thread)
@@ -94,6 +100,14 @@ def one_schedule(kind, nthreads, ntx, chooser, preconnect, wrap_lock=True, varia
         if wrap_lock:
             # every other lock the client, its transaction manager or its framer own (none on this tree) is put under the scheduler too
             wrap_locks(sched, client, client.transaction, client.framer)
+        if variant == 'after-undecodable':
+            # earlier in the life of the client: one transaction whose reply arrived whole but could not be decoded (error result)
+            peer.bogus_address = 999
+            try:
+                client.read_holding_registers(999, 1, unit=1)
+            except Exception:  # noqa
+                pass
+            del env.trace[:]
         for i in range(nthreads):
             def work(i=i):
                 name = 'T%d' % i
@@ -146,6 +160,8 @@ def judge(out, nthreads, ntx, variant='plain'):
             if err is not None or pos != len(data) or len(frames) != 1:
                 kinds.setdefault('frame-not-whole', 'a write to the transport is not exactly one request frame: %s' % data.hex())
             nframes += len(frames)
+    if variant == 'after-undecodable':
+        nframes -= 1                      # (the earlier transaction of the client wrote one frame)
     if st == 'OK' and (nframes != nthreads * ntx if variant != 'retry' else not nthreads * ntx <= nframes <= 3 * nthreads * ntx) and 'wrong-or-lost-reply' not in kinds:
         kinds['frame-count'] = '%d request frames written for %d transactions' % (nframes, nthreads * ntx)
     # (2) mutual exclusion of the send..return window.  Opening a connection inside another thread's window is kept apart
@@ -250,12 +266,12 @@ def run(run):
                 ('rtu', 4, 2, True, 0, 2000), ('tcp', 2, 1, False, 2000, 0), ('tcp', 2, 2, False, 3000, 500), ('rtu', 2, 1, False, 1000, 200)]
     plan = [p + ('plain',) for p in plan]
     if run.thorough:
-        plan = [('tcp', 2, 2, True, 3000, 500, 'foreign'), ('tcp', 3, 1, True, 2000, 0, 'foreign'), ('rtu', 2, 2, True, 1000, 300, 'foreign'), ('tcp', 2, 2, True, 3000, 1000, 'fault'), ('tcp', 3, 1, True, 2000, 500, 'fault'), ('rtu', 2, 2, True, 1500, 500, 'fault'), ('tcp', 3, 2, True, 0, 1500, 'fault'),
+        plan = [('tcp', 2, 2, True, 2000, 500, 'after-undecodable'), ('tcp', 3, 1, True, 2000, 0, 'after-undecodable'), ('rtu', 2, 2, True, 800, 200, 'after-undecodable'), ('tcp', 2, 2, True, 3000, 500, 'foreign'), ('tcp', 3, 1, True, 2000, 0, 'foreign'), ('rtu', 2, 2, True, 1000, 300, 'foreign'), ('tcp', 2, 2, True, 3000, 1000, 'fault'), ('tcp', 3, 1, True, 2000, 500, 'fault'), ('rtu', 2, 2, True, 1500, 500, 'fault'), ('tcp', 3, 2, True, 0, 1500, 'fault'),
                 ('rtu', 2, 2, True, 2000, 500, 'broadcast'), ('ascii', 2, 2, True, 2000, 500, 'broadcast'), ('tcp', 3, 1, True, 3000, 500, 'broadcast'),
                 ('binary', 3, 1, True, 1000, 500, 'broadcast'), ('tcp', 2, 2, True, 3000, 500, 'units'), ('tcp', 3, 1, True, 3000, 0, 'units'), ('rtu', 2, 2, True, 1000, 500, 'units'),
                  ('tcp', 2, 2, True, 3000, 1000, 'retry'), ('tcp', 3, 1, True, 2000, 500, 'retry'), ('rtu', 2, 1, True, 1500, 300, 'retry')] + plan
     else:
-        plan = [('tcp', 2, 2, True, 120, 40, 'foreign'), ('rtu', 2, 1, True, 60, 0, 'foreign'), ('tcp', 2, 2, True, 120, 60, 'fault'), ('tcp', 3, 1, True, 60, 40, 'fault'), ('rtu', 2, 2, True, 60, 40, 'fault'),
+        plan = [('tcp', 2, 2, True, 100, 40, 'after-undecodable'), ('rtu', 2, 1, True, 60, 0, 'after-undecodable'), ('tcp', 2, 2, True, 120, 40, 'foreign'), ('rtu', 2, 1, True, 60, 0, 'foreign'), ('tcp', 2, 2, True, 120, 60, 'fault'), ('tcp', 3, 1, True, 60, 40, 'fault'), ('rtu', 2, 2, True, 60, 40, 'fault'),
                 ('rtu', 2, 1, True, 80, 30, 'broadcast'), ('ascii', 2, 2, True, 60, 60, 'broadcast'), ('tcp', 3, 1, True, 80, 40, 'broadcast'),
                 ('tcp', 2, 2, True, 150, 50, 'units'), ('tcp', 3, 1, True, 100, 0, 'units'), ('rtu', 2, 1, True, 80, 0, 'units'),
                  ('tcp', 2, 2, True, 150, 80, 'retry'), ('tcp', 3, 1, True, 100, 50, 'retry'), ('rtu', 2, 1, True, 80, 30, 'retry')] + plan
